@@ -5,9 +5,11 @@
 // is a translation error (the check then reports the obligation as broken) - never a guess.  The
 // subset is described precisely in design-notes/go2coq.md; in short:
 //
-//   - functions and methods whose bodies consist of :=, =, op=, ++/--, var, if/else (with init),
-//     switch on values and tagless switch (no fallthrough/break), return, counted for loops of three
-//     shapes (loop.go), calls of other translated functions of the same package, and
+//   - functions and methods whose bodies consist of :=, =, op=, ++/--, var, parallel assignment
+//     (a, b = x, y; a, b := f()), if/else (with init), switch on values and tagless switch (with
+//     init; no fallthrough/break), return (named results and bare return included), counted for
+//     loops (loop.go), calls of other functions of the same package (translated on demand, so a
+//     helper extracted by a refactoring is pulled in automatically), and
 //     Lock/Unlock/RLock/RUnlock (also deferred) on a sync.Mutex / sync.RWMutex, which are skipped
 //     (sequential semantics);
 //   - expressions over bool and sized integers: + - * / % & | ^ &^ << >> unary - ^ !, comparisons,
@@ -395,6 +397,8 @@ type tr struct {
 	anyConds bool
 
 	recvIsValue bool
+	gparams     []*genParam
+	named       []types.Object // named results
 	condCount   int
 	mutatesParm bool       // assigns an element of a slice-typed parameter (an effect on the caller's array)
 	pendingOuts []*pathRef // where the assigned receiver fields of the call just rendered go
@@ -908,19 +912,7 @@ func (t *tr) call(x *ast.CallExpr) (*gen, string) {
 			if len(sel.Index()) != 1 {
 				fail(t.pos(x), "call of a promoted method")
 			}
-			join := func(p *pathRef) *pathRef {
-				q := &pathRef{root: base.root, idx: append(append([]int{}, base.idx...), p.idx...), typ: p.typ, viaPtr: base.viaPtr || p.viaPtr}
-				if base.path == "" {
-					q.path = p.path
-				} else {
-					q.path = base.path + "." + p.path
-					if isPointer(base.typ) {
-						q.viaPtr = true
-					}
-				}
-
-				return q
-			}
+			join := func(p *pathRef) *pathRef { return joinPath(base, p) }
 			for _, p := range g.recvIn {
 				parts = append(parts, t.readPath(join(p), x))
 			}
@@ -941,7 +933,17 @@ func (t *tr) call(x *ast.CallExpr) (*gen, string) {
 	for i, a := range x.Args {
 		p := g.params[i]
 		if p.isFlat {
-			fail(t.pos(a), "struct-typed argument in a call is not supported")
+			// a struct (or pointer to struct) handed on to a callee that reads some of its fields:
+			// pass those fields of the caller's own path
+			base, ok := t.resolvePath(a)
+			if !ok || !types.Identical(t.typeOf(a), p.typ) {
+				fail(t.pos(a), "struct-typed argument that is not a field path of the receiver or of a parameter")
+			}
+			for _, q := range p.flat {
+				parts = append(parts, t.readPath(joinPath(base, &pathRef{path: q.path, idx: q.idx, typ: q.typ, viaPtr: q.viaPtr}), a))
+			}
+
+			continue
 		}
 		if coqType(t.typeOf(a)) != coqType(p.typ) {
 			fail(t.pos(a), "argument kind mismatch")
@@ -954,6 +956,21 @@ func (t *tr) call(x *ast.CallExpr) (*gen, string) {
 	}
 
 	return g, s
+}
+
+// joinPath: the callee-relative path p below the caller's path base
+func joinPath(base, p *pathRef) *pathRef {
+	q := &pathRef{root: base.root, idx: append(append([]int{}, base.idx...), p.idx...), typ: p.typ, viaPtr: base.viaPtr || p.viaPtr}
+	if base.path == "" {
+		q.path = p.path
+	} else {
+		q.path = base.path + "." + p.path
+		if isPointer(base.typ) {
+			q.viaPtr = true
+		}
+	}
+
+	return q
 }
 
 func (t *tr) writePath(p *pathRef, at ast.Node) string {
@@ -981,14 +998,11 @@ func (t *tr) target(e ast.Expr, define bool) func() string {
 		return t.target(x.X, define)
 	case *ast.Ident:
 		if x.Name == "_" {
-			fail(t.pos(e), "blank assignment")
+			return func() string { return "_" }
 		}
 		var obj types.Object
-		if define {
+		if define && t.p.info.Defs[x] != nil {
 			obj = t.p.info.Defs[x]
-			if obj == nil { // redeclaration in a multi-assign: not supported here
-				fail(t.pos(e), "unsupported := target")
-			}
 		} else {
 			obj = t.p.info.Uses[x]
 			if _, ok := t.locals[obj]; !ok {
@@ -1242,8 +1256,41 @@ func (t *tr) block(stmts []ast.Stmt, ret func([]ast.Expr) string, k func() strin
 				return t.callStmt(c, lhs, rest)
 			}
 		}
+		if len(s.Lhs) == len(s.Rhs) && len(s.Lhs) > 1 && (s.Tok == token.DEFINE || s.Tok == token.ASSIGN) {
+			// parallel assignment: all right-hand sides are evaluated first (in the current
+			// environment), then the targets are bound
+			var vals []string
+			for i, r := range s.Rhs {
+				if _, isElem := s.Lhs[i].(*ast.IndexExpr); isElem {
+					fail(t.pos(s), "element target in a parallel assignment is not supported")
+				}
+				lty, rty := t.typeOf(s.Lhs[i]), t.typeOf(r)
+				if id, ok := s.Lhs[i].(*ast.Ident); ok && id.Name == "_" {
+					lty = rty
+				}
+				if coqType(lty) != coqType(rty) && !(classify(lty) == kInt && classify(rty) == kInt) {
+					fail(t.pos(s), "assignment between different kinds (%s := %s)", lty, rty)
+				}
+				vals = append(vals, t.expr(r))
+			}
+			cs := t.takeConds()
+			var tg []func() string
+			for _, l := range s.Lhs {
+				tg = append(tg, t.target(l, s.Tok == token.DEFINE))
+			}
+			var chain func(i int) string
+			chain = func(i int) string {
+				if i == len(vals) {
+					return rest()
+				}
+
+				return "let " + tg[i]() + " := " + vals[i] + " in\n  " + chain(i+1)
+			}
+
+			return t.guard(cs, chain(0))
+		}
 		if len(s.Lhs) != 1 || len(s.Rhs) != 1 {
-			fail(t.pos(s), "multi-assignment not supported")
+			fail(t.pos(s), "this form of multi-assignment is not supported")
 		}
 		// element assignment s[i] (op)= v
 		if ix, ok := s.Lhs[0].(*ast.IndexExpr); ok {
@@ -1347,7 +1394,10 @@ func (t *tr) block(stmts []ast.Stmt, ret func([]ast.Expr) string, k func() strin
 		return t.loop(s, stmts[1:], ret, k)
 	case *ast.SwitchStmt:
 		if s.Init != nil {
-			fail(t.pos(s), "switch with init statement is not supported")
+			c := *s
+			c.Init = nil
+
+			return t.block(append([]ast.Stmt{s.Init, &c}, stmts[1:]...), ret, k)
 		}
 		tag := ""
 		var cs []string
@@ -1446,13 +1496,20 @@ func (p *pkgInfo) translate(want string, from token.Position) *gen {
 
 	// results
 	var resTypes []types.Type
+	var resNames []*ast.Ident // named results: local variables that start at the zero value
 	var resStruct *types.Struct
 	if fd.Type.Results != nil {
 		for _, fl := range fd.Type.Results.List {
-			if len(fl.Names) != 0 {
-				fail(fpos, "named results are not supported")
+			n := len(fl.Names)
+			if n == 0 {
+				n = 1
 			}
-			resTypes = append(resTypes, p.info.TypeOf(fl.Type))
+			for i := 0; i < n; i++ {
+				resTypes = append(resTypes, p.info.TypeOf(fl.Type))
+				if len(fl.Names) != 0 {
+					resNames = append(resNames, fl.Names[i])
+				}
+			}
 		}
 	}
 	g.nres = len(resTypes)
@@ -1470,12 +1527,15 @@ func (p *pkgInfo) translate(want string, from token.Position) *gen {
 	if !returns(fd.Body.List) && fd.Type.Results != nil {
 		fail(fpos, "function may fall off its end")
 	}
+	if resStruct != nil && len(resNames) != 0 {
+		fail(fpos, "a named struct result is not supported")
+	}
 
 	run := func(safe bool, outs []*pathRef) (*tr, string) {
 		t := &tr{p: p, fd: fd, locals: map[types.Object]string{}, paths: map[pathKey]string{}, inputs: map[pathKey]*pathRef{},
 			assigned: map[pathKey]*pathRef{}, selected: map[types.Object]bool{}, whole: map[types.Object]bool{}, outs: outs, safe: safe}
 		g.recvBasic = nil
-		g.params = nil
+		var params []*genParam
 		if fd.Recv != nil && len(fd.Recv.List[0].Names) == 1 && fd.Recv.List[0].Names[0].Name != "_" {
 			id := fd.Recv.List[0].Names[0]
 			obj := p.info.Defs[id]
@@ -1517,8 +1577,34 @@ func (p *pkgInfo) translate(want string, from token.Position) *gen {
 						t.locals[gp.obj] = gp.name
 					}
 				}
-				g.params = append(g.params, gp)
+				params = append(params, gp)
 			}
+		}
+		t.gparams = params
+		for i, id := range resNames {
+			if id.Name == "_" {
+				fail(fpos, "blank named result")
+			}
+			obj := p.info.Defs[id]
+			var z string
+			switch classify(resTypes[i]) {
+			case kBool:
+				z = "false"
+			case kInt:
+				z = "0"
+			case kList:
+				if _, isSlice := resTypes[i].Underlying().(*types.Slice); !isSlice {
+					fail(fpos, "named array result")
+				}
+				z = "nil"
+			default:
+				fail(fpos, "named result of type %s is not supported", resTypes[i])
+			}
+			t.locals[obj] = z
+			t.named = append(t.named, obj)
+		}
+		if g.params == nil { // during the first pass callers cannot exist yet; kept for arity only
+			g.params = params
 		}
 		ret := func(rs []ast.Expr) string {
 			var parts []string
@@ -1562,8 +1648,12 @@ func (p *pkgInfo) translate(want string, from token.Position) *gen {
 				}
 				parts = vals
 			} else {
-				if len(rs) != len(resTypes) {
-					fail(fpos, "bare return / result count mismatch")
+				if len(rs) == 0 && len(t.named) == len(resTypes) && len(resTypes) > 0 {
+					for _, o := range t.named { // bare return: the current values of the named results
+						parts = append(parts, t.locals[o])
+					}
+				} else if len(rs) != len(resTypes) {
+					fail(fpos, "result count mismatch")
 				}
 				for i, r := range rs {
 					if id, ok := r.(*ast.Ident); ok {
@@ -1610,6 +1700,7 @@ func (p *pkgInfo) translate(want string, from token.Position) *gen {
 		fail(fpos, "internal: passes disagree")
 	}
 	g.mutParam = t2.mutatesParm
+	g.params = t2.gparams
 	// no path may be a prefix of another one
 	all := map[pathKey]*pathRef{}
 	for k, v := range t2.inputs {
@@ -1682,7 +1773,7 @@ func (p *pkgInfo) translate(want string, from token.Position) *gen {
 	for _, ps := range params {
 		header += " " + ps
 	}
-	fmt.Fprintf(p.out, "(* %s: %s *)\nDefinition %s%s :=\n  %s.\n\n", p.dir, want, g.coqName, header, body)
+	fmt.Fprintf(p.out, "(* %s: %s *)\nDefinition %s%s :=\n  %s.\n#[global] Hint Unfold %s : gcores.\n\n", p.dir, want, g.coqName, header, body, g.coqName)
 
 	t3, sbody := run(true, outs)
 	for k := range t3.inputs {
@@ -1692,8 +1783,8 @@ func (p *pkgInfo) translate(want string, from token.Position) *gen {
 	}
 	if t3.anyConds {
 		g.hasSafe = true
-		fmt.Fprintf(p.out, "(* %s: %s does not panic (index range, division by zero, shift count) *)\nDefinition %s_safe%s :=\n  %s.\n\n",
-			p.dir, want, g.coqName, header, sbody)
+		fmt.Fprintf(p.out, "(* %s: %s does not panic (index range, division by zero, shift count) *)\nDefinition %s_safe%s :=\n  %s.\n#[global] Hint Unfold %s_safe : gcores.\n\n",
+			p.dir, want, g.coqName, header, sbody, g.coqName)
 	}
 	g.busy = false
 
